@@ -8,9 +8,9 @@ git checkout -q -- . && git clean -fdq
 git apply "$D/patch.diff" || { echo "PATCH-DOES-NOT-APPLY"; exit 1; }
 go build ./... || { echo "DOES-NOT-COMPILE"; git checkout -q -- .; exit 1; }
 S=0
-for m in . ./test; do (cd $m && go test -mod=mod -vet=off -count=1 ./... >/tmp/seed_suite.log 2>&1) || S=1; done
-[ $S = 0 ] && echo "suite-with-patch: PASS" || { echo "suite-with-patch: FAIL"; tail -20 /tmp/seed_suite.log; }
-timeout 300 bash "$D/demo.sh" "$WT" >/tmp/seed_demo1.log 2>&1 && echo "demo-with-patch: PASS (bad)" || echo "demo-with-patch: FAIL (good)"
+for m in . ./test; do (cd $m && go test -mod=mod -vet=off -count=1 ./... >/tmp/seed_suite_$$.log 2>&1) || S=1; done
+[ $S = 0 ] && echo "suite-with-patch: PASS" || { echo "suite-with-patch: FAIL"; tail -20 /tmp/seed_suite_$$.log; }
+timeout 300 bash "$D/demo.sh" "$WT" >/tmp/seed_demo1_$$.log 2>&1 && echo "demo-with-patch: PASS (bad)" || echo "demo-with-patch: FAIL (good)"
 git checkout -q -- . && git clean -fdq
-timeout 300 bash "$D/demo.sh" "$WT" >/tmp/seed_demo2.log 2>&1 && echo "demo-without-patch: PASS (good)" || { echo "demo-without-patch: FAIL (bad)"; tail -5 /tmp/seed_demo2.log; }
+timeout 300 bash "$D/demo.sh" "$WT" >/tmp/seed_demo2_$$.log 2>&1 && echo "demo-without-patch: PASS (good)" || { echo "demo-without-patch: FAIL (bad)"; tail -5 /tmp/seed_demo2_$$.log; }
 git checkout -q -- . && git clean -fdq
